@@ -107,6 +107,10 @@ type Pool struct {
 	taskQueue chan *Task
 	expanded  int32
 
+	// mu orders submissions and Start (readers) against Stop closing taskQueue (writer).
+	mu     sync.RWMutex
+	closed bool // taskQueue has been closed; guarded by mu
+
 	state uint32 // 0: not start, 1: started, 2: stopped
 }
 
@@ -136,6 +140,9 @@ func NewPool(ctx context.Context, opt Option) (p *Pool) {
 
 // Start underlying workers.
 func (p *Pool) Start() {
+	p.mu.RLock()
+	defer p.mu.RUnlock()
+
 	if atomic.CompareAndSwapUint32(&p.state, 0, 1) {
 		numWorker := p.opt.NumberWorker
 
@@ -152,9 +159,20 @@ func (p *Pool) Stop() {
 		// cancel context
 		p.cancel()
 
-		// wait child workers
+		// Submitters blocked in push have been released by the cancellation above,
+		// so the write lock is acquired once nobody can send to taskQueue anymore.
+		p.mu.Lock()
+		p.closed = true
 		close(p.taskQueue)
+		p.mu.Unlock()
+
+		// wait child workers
 		p.wg.Wait()
+
+		// Tasks still queued (the pool was never started): release their waiters.
+		for t := range p.taskQueue {
+			t.future <- &TaskResult{Err: p.ctx.Err()}
+		}
 	}
 }
 
@@ -197,6 +215,13 @@ func (p *Pool) Do(t *Task) {
 			t.ctx = p.ctx
 		}
 
+		p.mu.RLock()
+		defer p.mu.RUnlock()
+		if p.closed {
+			t.future <- &TaskResult{Err: p.ctx.Err()}
+			return
+		}
+
 		if p.opt.ExpandableLimit == 0 {
 			p.push(t)
 		} else {
@@ -235,6 +260,13 @@ func (p *Pool) TryDo(t *Task) (addedToQueue bool) {
 	if t != nil {
 		if t.ctx == nil {
 			t.ctx = p.ctx
+		}
+
+		p.mu.RLock()
+		defer p.mu.RUnlock()
+		if p.closed {
+			t.future <- &TaskResult{Err: p.ctx.Err()}
+			return
 		}
 
 		select {
